@@ -786,6 +786,11 @@ func (t *tree) parseHeaderParam(token item) ast.Node {
 // For example, string, list or map literals, arithmetic, boolean operations, etc.
 func Expr(str string) (node ast.Node, err error) {
 	var t = &tree{lex: lexExpr("", str)}
+	defer func() {
+		if t.lex != nil {
+			t.lex.drain() // unread trailing input: let the scanner goroutine exit.
+		}
+	}()
 	defer t.recover(&err)
 	return t.parseExpr(0), err
 }
